@@ -520,7 +520,7 @@ package table
 //@   requires m != nil && m.log != nil && m.store != nil && m.nh != nil && allocated(m.closed)
 //@   modifies m.lastTables, m.store.rHas, m.store.rPair, m.store.nwk, m.store.wVal, m.store.wVer, m.store.wDel, m.store.wPrevHas, m.store.wPrev, world.clock
 //@   loop 0 invariant m.log != nil && m.store != nil && m.nh != nil && t != nil && t.C != m.closed && m.closed == old(m.closed)
-//@   loop 0 exit [C14.reconcile.alive] world.lastSel == m.closed
+//@   loop 0 leave [C14.reconcile.alive] world.lastSel == m.closed
 
 // reconcile starts only shards diffTables asked to start, each under the name of the record
 // diffTables mapped it to, and stops only shards diffTables asked to stop.
